@@ -186,6 +186,8 @@ def run(ctx):
     ctx.rule("R05.d", "every flush call of a flushing scope is dominated by the restore of the batching flag", floor=3)
     ctx.rule("R05.e", "when a field is set temporarily for every element of a collection and restored in a loop over the same collection, every iteration of the restoring loop reaches the restore", floor=1)
     ctx.rule("R05.f", "in a context manager that saved a field and writes the saved value back, the write-back is passed on every exit after the yield (normal or exceptional)", floor=4)
+    ctx.rule("R05.g", "a self-resetting Event is reset even when a watcher raises during the assignment: in Event.__set__ the reset is passed on the exceptional exit of super().__set__", floor=1)
+    ctx.rule("R05.h", "a failing flush leaves no events behind: every exceptional exit of the flush passes a reset of both queues", floor=1)
     ctx.not_decided += ["that later dispatch equals that of a fresh object (behavioural equivalence)",
                         "loop-carried partial restores inside a finally (finally blocks are summarised as atomic)"]
     ctx.assumptions += [
@@ -203,6 +205,7 @@ def run(ctx):
             len(temp_scopes), ", ".join("%s/%s" % (s.f.name, s.fld) for s in temp_scopes)))
 
     _extra_rules(ctx, scopes)
+    _event_and_flush_rules(ctx)
     for s in temp_scopes:
         f, cfg, fld = s.f, s.cfg, s.fld
         orig_ids = {w.id for w in s.orig}
@@ -300,6 +303,66 @@ def _reach_after(cfg: CFG, start: Node, stops: Set[int]) -> Set[int]:
             # a write node left through its own exceptional edge did not store
             stack.append(t)
     return seen
+
+
+def _event_and_flush_rules(ctx):
+    ev = ctx.repo.method("param.parameters.Event", "__set__")
+    ec = ctx.facts.cfg(ev)
+    sup = [n for n in ec.live_nodes() for c in calls_in(n) if isinstance(c.func, ast.Attribute) and c.func.attr == "__set__"
+           and isinstance(c.func.value, ast.Call) and norm(c.func.value.func) == "super"]
+    resets = {n.id for n in ec.live_nodes() for c in calls_in(n) if norm(c.func) == "self._reset_event"}
+    if not sup or not resets:
+        raise AnalysisError("Event.__set__ anchors (super().__set__ / _reset_event) not found")
+    for sn in sup:
+        # branches through which the NORMAL continuation legitimately skips the reset (mode 'set')
+        def walk(starts, stop_extra=()):
+            seen, stack = {}, list(starts)
+            while stack:
+                n = stack.pop()
+                if n.id in seen:
+                    continue
+                seen[n.id] = n
+                if n.id in resets or (n.kind == "br" and (norm(n.ast), n.polarity) in stop_extra):
+                    continue
+                stack.extend(t for l, t in n.succ if l != "e" or n is not sn)
+            return seen
+        normal = walk([t for l, t in sn.succ if l != "e"])
+        skip_brs = {(norm(n.ast), n.polarity) for n in normal.values() if n.kind == "br"} if ec.exit.id in normal else set()
+        exc = walk([t for l, t in sn.succ if l == "e"], stop_extra=skip_brs)
+        if ec.excexit.id in exc:
+            ctx.fail("R05.g", ev, sn, "when a watcher raises inside super().__set__ the Event is not reset: it stays True, the next `obj.e = True` is filtered as unchanged and never fires again",
+                     key=ev.qualname + "::no-reset-on-failure", input="watcher on an Event raises; afterwards p.e is True and p.e = True triggers nothing")
+        else:
+            ctx.ok("R05.g", ev, sn, "the reset is passed on the exceptional exit under the same mode test as on the normal one")
+    fl = ctx.repo.func("param.parameterized.Parameters._batch_call_watchers")
+    fc = ctx.facts.cfg(fl)
+    execs = [n for n in fc.live_nodes() for c in calls_in(n) if isinstance(c.func, ast.Attribute) and c.func.attr == "_execute_watcher"]
+    if not execs:
+        raise AnalysisError("the flush no longer calls _execute_watcher")
+
+    def clears(n, fld):
+        return any(ctx.facts.field_of(t, {}) == fld for t in stores_in(n)) and isinstance(n.ast, ast.Assign) and isinstance(n.ast.value, ast.List) and not n.ast.value.elts
+    for en in execs:
+        bad = False
+        for fld in ("_events", "_state_watchers"):
+            seen, stack = set(), [t for l, t in en.succ if l == "e"]
+            while stack:
+                n = stack.pop()
+                if n.id in seen:
+                    continue
+                seen.add(n.id)
+                if clears(n, fld):
+                    continue
+                if n is fc.excexit:
+                    bad = True
+                    break
+                stack.extend(t for l, t in n.succ)
+        if bad:
+            ctx.fail("R05.h", fl, en, "when a watcher raises during the flush, events queued in the meantime by a queued watcher stay in the queue: they are delivered at some later unrelated assignment",
+                     key=fl.qualname + "::leftover-events-on-failure",
+                     input="queued watcher on a sets b; a second watcher on a raises; batch{p.a = 1} -> the event for b is delivered at the next unrelated assignment")
+        else:
+            ctx.ok("R05.h", fl, en, "both queues are emptied on the exceptional exit")
 
 
 def _extra_rules(ctx, scopes):
